@@ -637,6 +637,12 @@ func genC01(tier string, seed int64) (*Family, error) {
 		{"lead0_007", &expr{op: "<", l: x64, r: mkLit("007", "int64(7)", 'I')}},
 		{"lead0_zero", &expr{op: "+", l: x64, r: mkLit("00", "int64(0)", 'I')}},
 		{"lead0_real", &expr{op: "*", l: x64, r: mkLit("010.5", "float64(10.5)", 'F')}},
+		// both operands of && and || are evaluated: a fault on the right fails the rule whatever the left is
+		{"and_right_div", &expr{op: "&&", l: mkVar("p", "bool"), r: &expr{op: ">", l: &expr{op: "/", l: x64, r: y64}, r: mkLit("1", "int64(1)", 'I')}}},
+		{"or_right_div", &expr{op: "||", l: mkVar("p", "bool"), r: &expr{op: "==", l: &expr{op: "/", l: x64, r: y64}, r: mkLit("0", "int64(0)", 'I')}}},
+		{"and_or_right_div", &expr{op: "||", l: &expr{op: "()", l: &expr{op: "&&", l: mkVar("p", "bool"), r: &expr{op: ">", l: &expr{op: "/", l: mkLit("1", "int64(1)", 'I'), r: y64}, r: mkLit("0", "int64(0)", 'I')}}}, r: mkVar("q", "bool")}},
+		{"and_right_int", &expr{op: "&&", l: mkVar("p", "bool"), r: x64}},
+		{"or_right_string", &expr{op: "||", l: mkVar("p", "bool"), r: mkLit("\"x\"", "\"x\"", 'S')}},
 		{"exp_neg", &expr{op: "*", l: x64, r: mkLit("5e-1", "float64(5e-1)", 'F')}},
 		{"exp_neg2", &expr{op: "+", l: x64, r: mkLit("25e-2", "float64(25e-2)", 'F')}},
 		{"exp_neg_cmp", &expr{op: "<", l: mkLit("1e-3", "float64(1e-3)", 'F'), r: x64}},
@@ -693,6 +699,12 @@ func c01Meta(fam *Family) string {
 		{"alpha", "abc", "x y", "9223372036854775807", 0, 9223372036854775807},
 		{"mixed", "12a", "", "-9223372036854775808", 0, -9223372036854775808},
 		{"nosal", "42", "dd", "", 42, 0},
+		{"int32over", "2147483648", "", "1", 2147483648, 1},
+		{"int32under", "-2147483649", "", "1", -2147483649, 1},
+		{"uint32over", "4294967296", "", "", 4294967296, 0},
+		{"big53", "9007199254740993", "d", "2", 9007199254740993, 2},
+		{"maxint64", "9223372036854775807", "", "3", 9223372036854775807, 3},
+		{"over64", "9223372036854775808", "", "3", 0, 3},
 	}
 	var b strings.Builder
 	for _, c := range cases {
